@@ -79,7 +79,8 @@ def concrete_path(lines):
     for line in lines[1:]:
         e = json.loads(line)
         if e["act"] in DRIVER_ACTS:
-            acts.append({"at": e["at"], "act": e["act"], "from": e["from"] if e["act"] != "start" else head["acc"]})
+            acts.append({"at": e["at"], "act": e["act"], "from": e["from"] if e["act"] != "start" else head["acc"],
+                         "newer": bool(e.get("newer", False))})
     conc = {"variant": head["variant"]}
     if head["variant"] == "unit":
         conc["unit"] = {"k": head["wk"], "min": head["wmin"], "max": head["wmax"]}
